@@ -8,7 +8,7 @@ from ..common import fsd, fse
 from ..runner import ok, violation, inconclusive
 from . import ddcase
 
-RULE = ("generated trees (groups of 2..8, hard-link subsets, 1-3 roots, tied and distinct a/m/c/b-times and nesting) x "
+RULE = ("generated trees (groups of 2..8 and, in 8% of the cases, one group of 34..140 files with 2-3 distinct time stamps; hard-link subsets, 1-3 roots, tied and distinct a/m/c/b-times and nesting) x "
         "real command lines (12 priorities single and chained, name/path/keep globs, n via -n/--rf-over/inherited, "
         "isolate/-H inherited from the report header, text and JSON); the set of paths named by the --dry-run script "
         "(decoded by bash) and the set of paths processed by the real run (shim log + inventory) must both equal the "
@@ -25,6 +25,22 @@ def run_case(arg):
     cfg = sc["cfg"]
     if r.random() < 0.6:
         cfg["priority"] = [r.choice(dd.PRIORITIES) for _ in range(r.choice([1, 1, 2, 2, 3]))]
+    if r.random() < 0.08:
+        # one large group with heavily tied time stamps: ties must stay in report order whatever the sort
+        # implementation does for long inputs
+        nfiles = r.randrange(34, 140)
+        nd = r.randrange(1, 4)
+        ents = [{"t": "d", "p": "r0"}] + [{"t": "d", "p": "r0/d%d" % k} for k in range(nd)]
+        ents += [{"t": "f", "p": "r0/d%d/m%03d" % (r.randrange(nd), k), "fam": 7, "len": 100, "flip": [], "mtime": k + 1}
+                 for k in range(nfiles)]
+        sc["spec"] = {"entries": ents, "roots": ["r0"]}
+        sc["group"].update({"isolate": False, "rf": None, "match_links": False})
+        timeprio = [p for p in dd.PRIORITIES if "recent" in p]
+        cfg.clear()
+        cfg["priority"] = [r.choice(timeprio)] + ([r.choice(dd.PRIORITIES)] if r.random() < 0.3 else [])
+        cfg["n"] = r.choice([1, 2, 3, 5, 8])
+        cfg["n_flag"] = "-n"
+        sc["big"] = r.choice([2, 2, 3])
     scratch = common.Scratch("C08")
     try:
         return _run(sc, r, scratch, i)
@@ -32,7 +48,7 @@ def run_case(arg):
         scratch.cleanup()
 
 
-def _set_times(r, troot):
+def _set_times(r, troot, npool=None):
     """Gives every file a/m-times from a small pool (ties on purpose) and staggers ctimes."""
     files = []
     for dp, dn, fn in os.walk(fse(troot)):
@@ -43,6 +59,8 @@ def _set_times(r, troot):
     r.shuffle(files)
     base = 1_600_000_000_000_000_000
     pool = [base + k * 1_000_000_000 for k in range(4)] + [base + 500_000_000, base + 500_000_001]
+    if npool:
+        pool = r.sample(pool, npool)
     stagger = r.random() < 0.5
     for p in files:
         os.utime(p, ns=(r.choice(pool) + 10_000_000_000, r.choice(pool)))
@@ -67,7 +85,7 @@ def _run(sc, r, scratch, i):
         return [inconclusive("group failed/timed out: " + res.err_text()[-200:])]
     report = res.out
     rep = reports.parse(report, sc["fmt"])
-    _set_times(r, troot)
+    _set_times(r, troot, sc.get("big"))
     target = os.path.join(d, "moved") if op == "move" else None
     if target:
         os.makedirs(target)
